@@ -285,7 +285,7 @@ def gen_links(rng, decls):
             links.append({"src": [l0["tgt"]], "tgt": tk, "fn": rng.choice([None, FN["first"]])})
         elif r < 0.4:    # chain: target is an earlier source (the order that breaks the invariant)
             sk, st = rng.choice(srcs)
-            links.append({"src": [sk], "tgt": l0["src"][0], "fn": rng.choice([None, FN["first"], FN["inc"]])})
+            links.append({"src": [sk], "tgt": rng.choice(l0["src"]), "fn": rng.choice([None, FN["first"], FN["inc"]])})
         elif r < 0.5:    # double target
             sk, st = rng.choice(srcs)
             links.append({"src": [sk], "tgt": l0["tgt"], "fn": None})
@@ -436,6 +436,22 @@ def gen_input(rng, decls, links, family, mode=None):
                 obj = nest([(d["key"], v)] + flat(obj))
             else:
                 argv.append(["opt", d["key"], v if d["kind"] != "str" else rng.choice(WORDS)])
+    # a link into the items of a list of classes is only exercised when the list is there: mostly give one, with items
+    # of DIFFERENT classes, some taking the target parameter and some not (the link reaches exactly the former)
+    for d in classy:
+        tparams = [l["tgt"].split(".")[-1] for l in links if l["tgt"].startswith(d["key"] + ".init_args.")]
+        if d["kind"] != "classlist" or not tparams or rng.random() > 0.7:
+            continue
+        tp = rng.choice(tparams)
+        has = [c for c, ps in CLASSES.items() if any(pn == tp for pn, _, _ in ps)]
+        lacks = [c for c in CLASSES if c not in has]
+        names = [rng.choice(has or list(CLASSES)), rng.choice(lacks or list(CLASSES))] + [rng.choice(list(CLASSES)) for _ in range(rng.randint(0, 1))]
+        rng.shuffle(names)
+        value = [spec(rng, cname=c, with_keys=tparams if supply else None) for c in names]
+        if mode == "object":
+            obj[d["key"]] = value
+        else:
+            argv.append(["opt", d["key"], value])
     # spelling / transport of the options: an argument declared with a second option string is given through it half of
     # the time (whether it is a source or a link target); a whole class spec is handed over in its own config file half
     # of the time (the parse keeps the file's __path__, save() writes the value back to a file of its own)
